@@ -57,6 +57,14 @@ def full_size(ctx, uni, g, thorough):
     for n in (edge if thorough else edge[:9] + edge[12:14] + [edge[14 + ctx.seed % 10], edge[-1]]):
         evs.append(pure.ev_op(uni, g, "mul", k2, n=n, how="dec"))
     evs.append(pure.ev_op(uni, g, "mul", 0, n=5, how="mul"))
+    # scalars with special bit patterns (powers of two, all-ones, window boundaries of any windowed method)
+    bl = q.bit_length()
+    ks = list(range(0, bl + 6)) if thorough else [k for k in range(0, bl + 6) if k % 16 == ctx.seed % 16 or k in (3, 4, 5, 8, bl - 1, bl, bl + 1)]
+    for k in ks:
+        evs.append(pure.ev_op(uni, g, "mul", k1, n=2 ** k, how="mul"))
+        evs.append(pure.ev_op(uni, g, "mul", k2, n=2 ** k - 1, how="dec"))
+    for pat in (0x0f0f0f0f0f0f0f0f0f0f0f0f0f0f0f0f, 0xf0f0f0f0f0f0f0f0f0f0f0f0f0f0f0f0f0, int("10" * 60, 2), int("1000" * 40, 2)):
+        evs.append(pure.ev_op(uni, g, "mul", k1, n=pat, how="mul"))
     for i in range(16 if thorough else 2):
         evs.append(pure.ev_op(uni, g, "mul", rnd(), n=ctx.rng.randrange(-q, 2 * q), how="sum"))
         evs.append(pure.ev_op(uni, g, "add", rnd(), rnd(), how="bigmul"))
